@@ -596,49 +596,29 @@ func (n *BlockNode) Release() {
 
 // Render renders the block node
 func (n *BlockNode) Render(w io.Writer, ctx *RenderContext) error {
-	// Determine which content to use - from context blocks or default
-	var content []Node
-
-	// Store the current block content as parent content if needed
-	// This is critical for multi-level inheritance
-	if _, exists := ctx.parentBlocks[n.name]; !exists {
-		// First time we've seen this block - store its original content
-		// This needs to happen for any block, not just in extending templates
-		if blockContent, ok := ctx.blocks[n.name]; ok && len(blockContent) > 0 {
-			// Store the content from blocks
-			ctx.parentBlocks[n.name] = blockContent
-		} else {
-			// Otherwise store the default body
-			ctx.parentBlocks[n.name] = n.body
-		}
-	}
-
-	// Now get the content to render
-	if blockContent, ok := ctx.blocks[n.name]; ok && len(blockContent) > 0 {
-		content = blockContent
-	} else {
-		// Otherwise, use the default content from this block node
-		content = n.body
+	// The definitions of this block along the extends chain, most derived
+	// first. A block that no root pass has registered (a block nested in
+	// another construct) is the base definition of its chain.
+	chain := ctx.blockDefs[n.name]
+	if len(chain) == 0 || chain[len(chain)-1] != n {
+		chain = append(chain[:len(chain):len(chain)], n)
 	}
 
 	// Save the current block for parent() function support
-	previousBlock := ctx.currentBlock
-	ctx.currentBlock = n
+	previousBlock, previousChain, previousLevel := ctx.currentBlock, ctx.currentChain, ctx.blockLevel
+	ctx.currentBlock, ctx.currentChain, ctx.blockLevel = n, chain, 0
+	defer func() {
+		ctx.currentBlock, ctx.currentChain, ctx.blockLevel = previousBlock, previousChain, previousLevel
+	}()
 
-	// Create an isolated context for rendering this block
-	// This prevents parent() from accessing the wrong block context
-	blockCtx := ctx
-
-	// Render the appropriate content
-	for _, node := range content {
-		err := node.Render(w, blockCtx)
+	// Render the most derived definition, even when it is empty
+	for _, node := range chain[0].body {
+		err := node.Render(w, ctx)
 		if err != nil {
 			return err
 		}
 	}
 
-	// Restore the previous block
-	ctx.currentBlock = previousBlock
 	return nil
 }
 
@@ -722,31 +702,11 @@ func (n *ExtendsNode) Render(w io.Writer, ctx *RenderContext) error {
 	// Ensure the context is released even if an error occurs
 	defer parentCtx.Release()
 
-	// First, copy any existing parent blocks to maintain the inheritance chain
-	// This allows for multi-level parent() calls to work properly
-	for name, nodes := range ctx.parentBlocks {
-		// Copy to the new context to preserve the inheritance chain
-		parentCtx.parentBlocks[name] = nodes
-	}
-
-	// Extract blocks from the parent template and store them as parent blocks
-	// for any blocks defined in the child but not yet in the parent chain
-	if rootNode, ok := parentTemplate.nodes.(*RootNode); ok {
-		for _, child := range rootNode.Children() {
-			if block, ok := child.(*BlockNode); ok {
-				// If we don't already have a parent for this block,
-				// use the parent template's block definition
-				if _, exists := parentCtx.parentBlocks[block.name]; !exists {
-					parentCtx.parentBlocks[block.name] = block.body
-				}
-			}
-		}
-	}
-
-	// Finally, copy all block definitions from the child context
-	// These are the blocks that will actually be rendered
-	for name, nodes := range ctx.blocks {
-		parentCtx.blocks[name] = nodes
+	// Hand the block definitions collected so far (this template's and its
+	// descendants') to the parent; the parent's root pass appends its own
+	parentCtx.blockDefs = make(map[string][]*BlockNode, len(ctx.blockDefs))
+	for name, defs := range ctx.blockDefs {
+		parentCtx.blockDefs[name] = defs
 	}
 
 	// Render the parent template with the updated context
@@ -1487,23 +1447,16 @@ func (n *ApplyNode) Render(w io.Writer, ctx *RenderContext) error {
 func (n *RootNode) Render(w io.Writer, ctx *RenderContext) error {
 	// First pass: collect blocks and check for extends
 	var extendsNode *ExtendsNode
-	var hasChildBlocks bool
 
-	// Check if this is being rendered as a parent template (ctx.extending is true)
-	// In that case, we should NOT override block definitions
-	if ctx.extending {
-		hasChildBlocks = true
-	}
-
-	// First register all blocks in this template before processing extends
-	// Needed to ensure all blocks are available for parent() calls
+	// First register all top-level blocks of this template behind the
+	// definitions that came from its descendants
 	for _, child := range n.children {
 		if block, ok := child.(*BlockNode); ok {
-			// Only register blocks that haven't been defined by a child template
-			if !hasChildBlocks || ctx.blocks[block.name] == nil {
-				// Register the block
-				ctx.blocks[block.name] = block.body
+			if ctx.blockDefs == nil {
+				ctx.blockDefs = make(map[string][]*BlockNode)
 			}
+			defs := ctx.blockDefs[block.name]
+			ctx.blockDefs[block.name] = append(defs[:len(defs):len(defs)], block)
 		} else if ext, ok := child.(*ExtendsNode); ok {
 			// If this is an extends node, record it for later
 			extendsNode = ext
